@@ -70,6 +70,11 @@ def main():
         except Exception:
             # the harness itself failed: never silently pass
             traceback.print_exc()
+            if fingerprint.tree_is_baseline():
+                # the source tree is byte for byte the one the checks were validated against: the exception is a defect of the
+                # harness (an unlucky seed, a missing import), not of arim — a harness error (exit 2), never a VIOLATION
+                print(f"[{pid}] HARNESS ERROR on the baseline source tree (exit 2): " + traceback.format_exc().strip().splitlines()[-1])
+                return 2
             ctx.disagree("harness exception: " + traceback.format_exc()[-1500:], {})
         return common.finish(ctx, search=getattr(mod, "search", None))
     except Exception:
